@@ -19,8 +19,10 @@ RULE = ("case = (generator type, construction path, jds, sizes, callbacks, motif
         "compared: multiset of (callback calls) over all leaves vs the model over the Coq sample space, shuffle "
         "protocol on every leaf. Non-trivial = at least two distinct placements; distinct by (type, jds, sizes, indices)")
 EXHAUSTIVE = {"quick": True, "thorough": True}
-EXPLANATION = ("counting theorems (all stub lists, any length) in Props/C03.v; per case the enumeration over the RNG "
-               "outcomes is exhaustive; the family of jds is exhaustive under the stated bounds")
+EXPLANATION = ("counting theorems (all stub lists, any length) in Props/C03.v; the histogram checker is proved to DECIDE "
+               "'flat and complete' and to accept the model's histogram (also in the form c03_check computes it, from the "
+               "callback calls of every run) for every valid input; per case the enumeration over the RNG outcomes is "
+               "exhaustive; the family of jds is exhaustive under the stated bounds")
 ASSUMPTIONS = ["CPython's random.shuffle is uniform over the n! permutations of its argument and successive calls are "
                "independent (trusted base, DESIGN section 6)"]
 TRUSTED = ["oracle-tree walker in harness/props/c03.py (replays a prefix of answers, branches on the first unscripted call)"]
@@ -31,10 +33,17 @@ LEVEL_TEXT = (
     "(every assignment of labelled stubs to slots occurs exactly once), every vertex-level arrangement of a stub "
     "list has the same multiplicity in it, the joint space is the product over topologies (independence), and "
     "relabelling vertices permutes the space. The checker c03_check (flat and complete histogram over the "
-    "placement space) is proved sound and the model's histogram is proved to satisfy that specification for all "
-    "inputs; the real generators are tied to this by exact enumeration of every shuffle outcome for all small jds "
-    "(<=4 stubs per topology, <=2 topologies) and by the shuffle protocol check (exactly one random.shuffle per "
-    "topology on the full stub list, no other randomness).")
+    "placement space) is proved sound AND complete (C03_checker_iff_spec), and it is proved to accept the model's "
+    "own histogram for EVERY joint degree sequence (C03_model_passes_checker; #schedules = #placements * "
+    "multiplicity). The map 'callback calls -> placement' that c03_check applies to each observed run is tied to "
+    "the shuffles by theorems for all valid configurations and all schedules: for the fast/network generator the "
+    "placement read off the calls IS shuffle_all (C03_placement_fast_is_shuffle), for the custom generator it is "
+    "the block-reversed shuffle_all (list.pop() order; C03_placement_custom_is_block_reversed_shuffle), an "
+    "involutive bijection on arrangements, so the call-level histogram over the whole schedule space passes the "
+    "checker for both generators (C03_fast_calls_pass_checker, C03_custom_calls_pass_checker). The real generators "
+    "are tied to this by exact enumeration of every shuffle outcome for all small jds (<=4 stubs per topology, "
+    "<=2 topologies) and by the shuffle protocol check (exactly one random.shuffle per topology on the full stub "
+    "list, no other randomness).")
 LEVEL_NOTE = ("Trusted: uniformity and independence of CPython's random.shuffle; Coq kernel; extraction + driver + "
               "harness. The statement is about the law induced by a uniform shuffle, not about the Mersenne Twister.")
 IMPL_TIMEOUT = 60.0
